@@ -342,14 +342,10 @@ package main
 //@   props C07 C16
 //@   panics may
 //@   ensures only-the-tokenizer-is-replaced: result.scope == ps.scope && sameoff(result.offsideCol, ps.offsideCol) && result.tvc == ps.tvc && result.tdctx == ps.tdctx
-//@   ensures new-source: result.tkz.buf == src
+//@   ensures new-source: result.tkz.buf == src && live(result)
 //@   inline-call newTkz#0
 //@   note newTkz is executed in place (over SMT strings); nextToken is used through its contract
 
-//@ func ParseAll
-//@   trusted
-//@   panics may
-//@   note abstract: the parser; errors are panics; writes no files (closed-world scan)
 
 //@ func RootStmtsToGo
 //@   trusted
@@ -358,15 +354,17 @@ package main
 
 //@ func transpileOne
 //@   props C16 C07
-//@   modifies glob:stdout glob:fsr glob:fsc
+//@   modifies maps glob:stdout glob:fsr glob:fsc glob:wg glob:vardefs glob:typeregs glob:tvaresets glob:uniqueid
 //@   ghost T string            -- the complete text returned by the emitter
 //@   ghost P ParseState        -- the parse state after this file
+//@   requires offside-stack-non-empty: len(parser.offsideCol) >= 1
 //@   panics may
 //@   onpanic nothing-written: glob(fsc) == old(glob(fsc)) && glob(fsr) == old(glob(fsr))
 //@   ensures readable: old(glob(fsr))[file]
 //@   ensures complete-output: suffixof(".fo", file) ==> glob(fsc) == store(old(glob(fsc)), path_join(path_dir(file), "gen_" + substr(path_base(file), 0, len(path_base(file)) - 3) + ".go"), T) && glob(fsr) == store(old(glob(fsr)), path_join(path_dir(file), "gen_" + substr(path_base(file), 0, len(path_base(file)) - 3) + ".go"), true)
 //@   ensures foi-writes-nothing: !suffixof(".fo", file) ==> glob(fsc) == old(glob(fsc)) && glob(fsr) == old(glob(fsr))
 //@   ensures state-kept: result == P
+//@   ensures offside-stack-kept: sameoff(result.offsideCol, parser.offsideCol)
 //@   ensures C07 announced: glob(stdout) == old(glob(stdout)) + "transpile: " + file + "\n"
 //@   at after call RootStmtsToGo#0: T = ret
 //@   at after call frt.Destr2#1: P = ret
@@ -439,7 +437,7 @@ package main
 
 //@ func parseRawLet
 //@   trusted
-//@   modifies maps glob:vardefs glob:typeregs
+//@   modifies maps glob:vardefs glob:typeregs glob:wg
 //@   panics may
 //@   ensures kept: live(ps) ==> live(result.E0) && samebuf(result.E0, ps) && result.E0.tkz.current.begin > ps.tkz.current.begin && result.E0.scope == ps.scope && sameoff(result.E0.offsideCol, ps.offsideCol)
 //@   note abstract: one let (variable, destructuring or function form) with its body
@@ -459,9 +457,11 @@ package main
 // name (so that every reference instantiates its type parameters afresh)
 //@ func parseRootLet
 //@   props C03 C07 C16
-//@   modifies maps glob:vardefs glob:typeregs
+//@   param pExpr: like parseExpr(_, $0)
+//@   modifies maps glob:vardefs glob:typeregs glob:wg
 //@   ghost L int                 -- the definition log after the let's own body was parsed
 //@   requires live: live(ps0)
+//@   requires offside-stack-non-empty: len(ps0.offsideCol) >= 1
 //@   panics may
 //@   ensures C03 a-function-is-registered-as-a-factory: is(RootStmt_RSRootFuncDef, result.E1) ==> glob(vardefs) == reg_varfac(L, result.E0.scope, RootStmt_RSRootFuncDef_Value(result.E1).Lfd.Fvar.Name)
 //@   ensures C03 a-variable-is-defined: is(RootStmt_RSRootVarDef, result.E1) ==> glob(vardefs) == def_var(L, result.E0.scope, RootStmt_RSRootVarDef_Value(result.E1).Vdef.Lvar.Name, RootStmt_RSRootVarDef_Value(result.E1).Vdef.Lvar)
@@ -471,11 +471,14 @@ package main
 
 //@ func parseRootOneStmt
 //@   props C07 C16
-//@   modifies maps glob:vardefs glob:typeregs glob:tvaresets glob:uniqueid
+//@   param pExpr: like parseExpr(_, $0)
+//@   modifies maps glob:vardefs glob:typeregs glob:tvaresets glob:uniqueid glob:wg
 //@   requires live: live(ps)
+//@   requires offside-stack-non-empty: len(ps.offsideCol) >= 1
 //@   panics may
 //@   ensures root-scope-only: sclen(ps.scope) <= 1
 //@   ensures kept: live(result.E0) && samebuf(result.E0, ps) && result.E0.tkz.current.begin > ps.tkz.current.begin
+//@   ensures offside-stack-kept: sameoff(result.E0.offsideCol, ps.offsideCol)
 
 // ---------------------------------------------------------------------------------------------
 // C09: a default-less union match is accepted exactly when it covers every case.
@@ -1309,6 +1312,7 @@ package main
 //@   ensures scope-restored: result.E0.scope == ps.scope
 //@   at before call parseExtDefs#0: SC = $1.scope
 //@   at before call piRegAll#0: RS = $1
+//@   ensures offside-stack-kept: sameoff(result.E0.offsideCol, ps.offsideCol)
 
 // ---------------------------------------------------------------------------------------------
 // C15 parser half: every value the type parser returns is a derivation of the documented grammar
@@ -1583,18 +1587,26 @@ package main
 
 //@ func parseLetOneVarDef
 //@   props C06
-//@   modifies maps
+//@   param pExpr: like parseExpr(_, $0)
+//@   modifies maps glob:wg glob:vardefs
 //@   requires live: live(ps)
+//@   requires offside-stack-non-empty: len(ps.offsideCol) >= 1
+//@   rec-group expr
+//@   decreases lex(rem(ps), 26)
 //@   panics may
 //@   ensures rhs-parsed-once: calls(pExpr) == old(calls(pExpr)) + 1
 //@   ensures rhs-starts-after-line-breaks: arg(pExpr, old(calls(pExpr))) == skipeol(advn(ps, 3)) && arg(pExpr, old(calls(pExpr))).tkz.current.ttype != New_TokenType_EOL
 //@   ensures let-name-eq: ps.tkz.current.ttype == New_TokenType_LET && adv(ps).tkz.current.ttype == New_TokenType_IDENTIFIER && advn(ps, 2).tkz.current.ttype == New_TokenType_EQ
+//@   ensures live: live(result.E0) && samebuf(result.E0, ps)
+//@   ensures kept: result.E0.scope == ps.scope && sameoff(result.E0.offsideCol, ps.offsideCol)
+//@   ensures progress: result.E0.tkz.current.begin > ps.tkz.current.begin
+//@   ensures grouped: old(glob(wg)) ==> glob(wg)
 
 //@ func psIdentOrUSNameNx
 //@   props C06
 //@   requires live: live(ps)
 //@   panics may
-//@   ensures live: live(result.E0) && samebuf(result.E0, ps)
+//@   ensures live: live(result.E0) && samebuf(result.E0, ps) && result.E0.scope == ps.scope && sameoff(result.E0.offsideCol, ps.offsideCol) && result.E0.tkz.current.begin >= ps.tkz.current.begin
 
 //@ func newVar
 //@   trusted
@@ -1602,14 +1614,23 @@ package main
 
 //@ func parseLetDestVarDef
 //@   props C06
-//@   modifies maps
+//@   param pExpr: like parseExpr(_, $0)
+//@   modifies maps glob:wg glob:vardefs
 //@   requires live: live(ps)
+//@   requires offside-stack-non-empty: len(ps.offsideCol) >= 1
+//@   rec-group expr
+//@   decreases lex(rem(ps), 26)
 //@   panics may
 //@   ensures rhs-parsed-once: calls(pExpr) == old(calls(pExpr)) + 1
 //@   ensures rhs-starts-after-line-breaks: arg(pExpr, old(calls(pExpr))).tkz.current.ttype != New_TokenType_EOL
+//@   ensures live: live(result.E0) && samebuf(result.E0, ps)
+//@   ensures kept: result.E0.scope == ps.scope && sameoff(result.E0.offsideCol, ps.offsideCol)
+//@   ensures progress: result.E0.tkz.current.begin > ps.tkz.current.begin
+//@   ensures grouped: old(glob(wg)) ==> glob(wg)
 //@   inline-call ParseList2
 //@   loop ParseList2/0:
-//@     invariant live: live(ps) && samebuf(ps, old(ps))
+//@     invariant live: live(ps) && samebuf(ps, old(ps)) && ps.scope == old(ps).scope && sameoff(ps.offsideCol, old(ps).offsideCol) && ps.tkz.current.begin >= old(ps).tkz.current.begin
+//@     invariant grouped: old(glob(wg)) ==> glob(wg)
 //@     invariant no-rhs-yet: calls(pExpr) == old(calls(pExpr))
 
 //@ func psStringValNx
@@ -1724,9 +1745,9 @@ package main
 
 //@ func parseBlock
 //@   props C06 C08 C09 C16
+//@   param pLet: like parseLetVarDef(_, $0)
 //@   modifies maps glob:vardefs glob:wg
 //@   requires live: live(ps)
-//@   requires let-parser-keeps: forall p ParseState :: {pLet(p)} live(p) ==> live(pLet(p).E0) && samebuf(pLet(p).E0, p) && sameoff(pLet(p).E0.offsideCol, p.offsideCol) && pLet(p).E0.scope == p.scope && pLet(p).E0.tkz.current.begin >= p.tkz.current.begin && (p.tkz.current.ttype != New_TokenType_EOF ==> pLet(p).E0.tkz.current.begin > p.tkz.current.begin)
 //@   rec-group expr
 //@   decreases lex(rem(ps), 30)
 //@   panics may
@@ -1742,11 +1763,11 @@ package main
 
 //@ func parseLetFuncDef
 //@   props C06 C07
+//@   param pLet: like parseLetVarDef(_, $0)
 //@   modifies maps glob:vardefs
 //@   ghost P ParseState          -- the state at which the body block is parsed
 //@   ghost L int                 -- the definition log right after the parameters
 //@   requires live: live(ps)
-//@   requires let-parser-keeps: forall p ParseState :: {pLet(p)} live(p) ==> live(pLet(p).E0) && samebuf(pLet(p).E0, p) && sameoff(pLet(p).E0.offsideCol, p.offsideCol) && pLet(p).E0.scope == p.scope && pLet(p).E0.tkz.current.begin >= p.tkz.current.begin && (p.tkz.current.ttype != New_TokenType_EOF ==> pLet(p).E0.tkz.current.begin > p.tkz.current.begin)
 //@   panics may
 //@   ensures body-starts-after-line-breaks: P.tkz.current.ttype != New_TokenType_EOL
 //@   ensures C07 parameters-and-body-in-a-child-scope: scparent(P.scope) == ps.scope && P.scope != ps.scope && L == params_log(old(glob(vardefs)), P.scope, result.E1.Params)
@@ -2500,11 +2521,11 @@ package main
 
 //@ func parseStmtList
 //@   props C06 C16
+//@   param pLet: like parseLetVarDef(_, $0)
 //@   param pExpr: like parseExpr(_, $0)
 //@   modifies maps glob:wg glob:vardefs
 //@   requires live: live(ps)
 //@   requires offside-stack-non-empty: len(ps.offsideCol) >= 1
-//@   requires let-parser-keeps: forall p ParseState :: {pLet(p)} live(p) ==> live(pLet(p).E0) && samebuf(pLet(p).E0, p) && sameoff(pLet(p).E0.offsideCol, p.offsideCol) && pLet(p).E0.scope == p.scope && pLet(p).E0.tkz.current.begin >= p.tkz.current.begin && (p.tkz.current.ttype != New_TokenType_EOF ==> pLet(p).E0.tkz.current.begin > p.tkz.current.begin)
 //@   rec-group expr
 //@   decreases lex(rem(ps), 28)
 //@   panics may
@@ -2525,10 +2546,10 @@ package main
 
 //@ func parseBlockAfterPushScope
 //@   props C06 C16
+//@   param pLet: like parseLetVarDef(_, $0)
 //@   param pExpr: like parseExpr(_, $0)
 //@   modifies maps glob:wg glob:vardefs
 //@   requires live: live(ps)
-//@   requires let-parser-keeps: forall p ParseState :: {pLet(p)} live(p) ==> live(pLet(p).E0) && samebuf(pLet(p).E0, p) && sameoff(pLet(p).E0.offsideCol, p.offsideCol) && pLet(p).E0.scope == p.scope && pLet(p).E0.tkz.current.begin >= p.tkz.current.begin && (p.tkz.current.ttype != New_TokenType_EOF ==> pLet(p).E0.tkz.current.begin > p.tkz.current.begin)
 //@   rec-group expr
 //@   decreases lex(rem(ps), 29)
 //@   panics may
@@ -2607,15 +2628,17 @@ package main
 //@ func initParse
 //@   trusted
 //@   panics may
+//@   ensures offside-stack-non-empty: len(result.offsideCol) >= 1
 //@   note abstract: the initial parse state (empty root scope, offside stack [0], fresh contexts)
 
 //@ func transpileFiles
 //@   props C07
-//@   modifies glob:stdout glob:fsr glob:fsc
+//@   modifies maps glob:stdout glob:fsr glob:fsc glob:wg glob:vardefs glob:typeregs glob:tvaresets glob:uniqueid
 //@   panics may
 //@   ensures arguments-in-the-order-given: glob(stdout) == old(glob(stdout)) + announce_log(files, len(files))
 //@   inline-call slice.Fold#0
 //@   loop slice.Fold#0/0 index i:
+//@     invariant offside-stack-non-empty: len(stat.offsideCol) >= 1
 //@     invariant announced-so-far: glob(stdout) == old(glob(stdout)) + announce_log(files, i)
 
 // a record definition: the fields written (in a child scope that knows the type parameters), registered
@@ -2634,6 +2657,7 @@ package main
 //@   ensures scope-restored: result.E0.scope == ps0.scope
 //@   at after call psRegTypeVars#0: L = glob(typeregs)
 //@   at after call psConsume#0: PF = ret
+//@   ensures offside-stack-kept: sameoff(result.E0.offsideCol, ps0.offsideCol)
 
 //@ func parseOneCaseDef
 //@   props C03
@@ -2677,6 +2701,7 @@ package main
 //@   ensures scope-restored: result.E0.scope == ps0.scope
 //@   at after call psRegTypeVars#0: L = glob(typeregs)
 //@   at before call parseCaseDefs#0: PC = $0
+//@   ensures offside-stack-kept: sameoff(result.E0.offsideCol, ps0.offsideCol)
 
 // instantiating a record registers every field of its definition, names in order, for exactly the type returned
 //@ func GenRecordType
@@ -2718,6 +2743,7 @@ package main
 //@   ensures a-record-or-a-union-by-its-first-token: (is(DefStmt_DRecordDef, result.E1) ==> DefStmt_DRecordDef_Value(result.E1).Name == ps.tkz.current.stringVal) && (is(DefStmt_DUnionDef, result.E1) ==> DefStmt_DUnionDef_Value(result.E1).Name == ps.tkz.current.stringVal)
 //@   ensures kept: live(result.E0) && samebuf(result.E0, ps) && result.E0.scope == ps.scope
 //@   ensures progress: result.E0.tkz.current.begin > ps.tkz.current.begin
+//@   ensures offside-stack-kept: sameoff(result.E0.offsideCol, ps.offsideCol)
 
 //@ func parseTypeDefBodyList
 //@   props C03 C16
@@ -2728,6 +2754,7 @@ package main
 //@   ensures at-least-one: len(result.E1) >= 1
 //@   ensures kept: live(result.E0) && samebuf(result.E0, ps) && result.E0.scope == ps.scope
 //@   ensures progress: result.E0.tkz.current.begin > ps.tkz.current.begin
+//@   ensures offside-stack-kept: sameoff(result.E0.offsideCol, ps.offsideCol)
 
 //@ func resolveFwrdDecl
 //@   trusted
@@ -2762,15 +2789,19 @@ package main
 //@   at before call psRegMdTypes#0: MD = $0
 //@   at before call psRegMdTypes#0: LT = glob(typeregs)
 //@   at before call psRegMdTypes#0: LV = glob(vardefs)
+//@   ensures offside-stack-kept: sameoff(result.E0.offsideCol, ps.offsideCol)
 
 // the top-level loop: every root statement consumes input, so the loop over the statements of a file
 // terminates (variant: bytes left) and ends at end of input
 //@ func parseRootOneStmtSk
 //@   props C16
-//@   modifies maps glob:vardefs glob:typeregs glob:tvaresets glob:uniqueid
+//@   param pExpr: like parseExpr(_, $0)
+//@   modifies maps glob:vardefs glob:typeregs glob:tvaresets glob:uniqueid glob:wg
 //@   requires live: live(ps)
+//@   requires offside-stack-non-empty: len(ps.offsideCol) >= 1
 //@   panics may
 //@   ensures kept: live(result.E0) && samebuf(result.E0, ps) && result.E0.tkz.current.begin > ps.tkz.current.begin
+//@   ensures offside-stack-kept: sameoff(result.E0.offsideCol, ps.offsideCol)
 
 //@ func psIsRootStmtsEnd
 //@   props C16
@@ -2779,12 +2810,44 @@ package main
 
 //@ func parseRootStmts
 //@   props C16
-//@   modifies maps glob:vardefs glob:typeregs glob:tvaresets glob:uniqueid
+//@   param pExpr: like parseExpr(_, $0)
+//@   modifies maps glob:vardefs glob:typeregs glob:tvaresets glob:uniqueid glob:wg
 //@   requires live: live(ps)
+//@   requires offside-stack-non-empty: len(ps.offsideCol) >= 1
 //@   panics may
 //@   ensures at-the-end-of-input: result.E0.tkz.current.ttype == New_TokenType_EOF
 //@   ensures live: live(result.E0) && samebuf(result.E0, ps)
 //@   inline-call ParseList#0
 //@   loop ParseList#0/0:
-//@     invariant live: live(ps) && samebuf(ps, old(ps))
+//@     invariant live: live(ps) && samebuf(ps, old(ps)) && sameoff(ps.offsideCol, old(ps).offsideCol)
 //@     decreases rem(ps)
+// ---------------------------------------------------------------------------------------------
+// the facades of wrapper.go tie the knot: parseExprFacade = parseExpr(parseBlockFacade, .), parseBlockFacade =
+// parseBlock(parseLetFacade, .), parseLetFacade = parseLetVarDef(parseExprFacade, .); ParseAll parses a whole
+// file with them.
+// ---------------------------------------------------------------------------------------------
+//@   ensures offside-stack-kept: sameoff(result.E0.offsideCol, ps.offsideCol)
+
+//@ func parseLetVarDef
+//@   props C06 C16
+//@   param pExpr: like parseExpr(_, $0)
+//@   modifies maps glob:wg glob:vardefs
+//@   requires live: live(ps)
+//@   requires offside-stack-non-empty: len(ps.offsideCol) >= 1
+//@   panics may
+//@   rec-group expr
+//@   decreases lex(rem(ps), 27)
+//@   ensures live: live(result.E0) && samebuf(result.E0, ps)
+//@   ensures kept: result.E0.scope == ps.scope && sameoff(result.E0.offsideCol, ps.offsideCol)
+//@   ensures progress: result.E0.tkz.current.begin > ps.tkz.current.begin
+//@   ensures grouped: old(glob(wg)) ==> glob(wg)
+
+//@ func ParseAll
+//@   props C16 C07
+//@   modifies maps glob:wg glob:vardefs glob:typeregs glob:tvaresets glob:uniqueid
+//@   requires live: live(ps)
+//@   requires offside-stack-non-empty: len(ps.offsideCol) >= 1
+//@   panics may
+//@   ensures at-the-end-of-input: result.E0.tkz.current.ttype == New_TokenType_EOF
+//@   ensures live: live(result.E0) && samebuf(result.E0, ps)
+//@   ensures offside-stack-kept: sameoff(result.E0.offsideCol, ps.offsideCol)
